@@ -319,6 +319,35 @@ func sgGenFor(prop string) func(seed uint64, idx, total int, tier string) any {
 			}
 		case "C04":
 			n := r.Range(3, 10)
+			if r.Bool(0.25) {
+				// a sender comes back on a transceiver that has been negotiated without one
+				p, k := r.Intn(2), r.Intn(2)
+				if r.Bool(0.5) {
+					ops = append(ops, sgOp{Kind: "addtrack", Peer: p, A: k})
+					ops = sgExchange(ops, p)
+					ops = append(ops, sgOp{Kind: "removetrack", Peer: p, A: 0})
+				} else {
+					ops = append(ops, sgOp{Kind: "addtransceiver", Peer: p, A: k, B: 2})
+				}
+				ops = sgExchange(ops, p)
+				ops = append(ops, sgOp{Kind: "addtrack", Peer: p, A: k})
+				n = len(ops) + r.Range(0, 3)
+			} else if r.Bool(0.25) {
+				// a change that needs negotiation, then description calls that are refused while stable
+				p := r.Intn(2)
+				ops = append(ops, sgOp{Kind: "offer", Peer: p}, sgGenMedia(r, p), sgOp{Kind: "offer", Peer: p})
+				for k := r.Range(1, 3); k > 0; k-- {
+					switch r.Intn(3) {
+					case 0:
+						ops = append(ops, sgOp{Kind: "setlocal", Peer: p, A: 0, B: 2}) // a stale offer
+					case 1:
+						ops = append(ops, sgOp{Kind: "setlocal", Peer: p, A: 2}) // an answer without an offer
+					default:
+						ops = append(ops, sgOp{Kind: "remote-raw", Peer: p, A: 2}) // a remote answer without an offer
+					}
+				}
+				n = len(ops) + r.Range(0, 3)
+			}
 			for len(ops) < n {
 				p := r.Intn(2)
 				switch x := r.Intn(11); {
